@@ -149,7 +149,7 @@ def run_history(hist, variant, check_from=0):
                 if got != want or not last.obj.resolved():
                     V.append(Violation('label.api_target', case, {'expected': want, 'observed': got}))
     except Exception:
-        V.append(Violation('exception', case, {'traceback': traceback.format_exc()[-1500:]}))
+        V.append(sut.exc_violation(case))
     return V, outcome
 
 
